@@ -131,12 +131,12 @@ CLAIMED = {
         "the code admits exactly what the rule written from the property allows (exhaustive case analysis, kernel-checked); a stored client has "
         "only admissible URIs and consistent metadata; a rejected request leaves the state unchanged (after the fix); ids, secrets and tokens of "
         "every registration are fresh and pairwise distinct in every reachable state (invariant by induction over registration histories); "
-        "read_isolated — the registration access token issued to X reads X and no other client, unknown tokens refused. Tie: histories of "
+        "read_isolated — the registration access token issued to X reads X and no other client, unknown tokens refused; capability matching of a single-valued parameter (filter_client_request / match_claim): what is stored for a parameter the filter table knows is a value the provider announces, anything else is dropped (filtered_value_is_announced, unannounced_value_dropped), and — over the table, the registration schema and the metadata schema REGENERATED from the source on every run — every algorithm parameter of the schema is in the table (every_alg_param_is_filtered, kernel-decided; registered_algorithms_are_announced). Tie: histories of "
         "registrations and reads through the real registration and registration-read endpoints; oracle with the rule on the URI string, "
         "database/token-map diff on rejection, distinctness, echo = stored; registrations against narrowed capability sets (stored and echoed values within what is announced).",
-   note="Capability matching (match_claim), sector_identifier fetch and split_uri/comb_uri are not modelled (echo and metadata consistency are oracle-checked); "
+   note="Capability matching of list-valued parameters (intersection), sector_identifier fetch and split_uri/comb_uri are not modelled (echo and metadata consistency are oracle-checked); "
         "URI features are computed with urllib at the interface.",
-   technique="Lean 4 proof (exhaustive decision table + freshness invariant by induction) + endpoint correspondence on registration histories", ref="6 C19"),
+   technique="Lean 4 proof (exhaustive decision table + freshness invariant by induction + kernel-decided obligation over translator-regenerated tables) + endpoint correspondence on registration histories", ref="6 C19"),
  "C18": dict(
    text="Lean theorems for every user id, salt, sector and every hash H: the four publication points publish the grant's sub whatever attributes the user record holds (sub_consistent; a user attribute named sub never replaces it, after the fix); sub is stable across logins; public "
         "subjects equal across clients; pairwise subjects agree within a sector and — under the explicit hypothesis Function.Injective H — "
